@@ -39,6 +39,9 @@ pub enum Shape {
     Mixed,
     OverAligned,
     Ladder,
+    /// 8 MiB allocated and freed, then 3 MiB allocated and freed: every free pushes top over the trim
+    /// threshold, so each round goes through sys_trim (mremap shrink / munmap) twice
+    Round,
 }
 #[derive(Copy, Clone, PartialEq, Eq, Debug)]
 pub enum Order {
@@ -46,12 +49,13 @@ pub enum Order {
     Fifo,
     Random,
 }
-pub const SHAPES: [(&str, Shape); 5] = [
+pub const SHAPES: [(&str, Shape); 6] = [
     ("small", Shape::Small),
     ("large", Shape::Large),
     ("mixed", Shape::Mixed),
     ("overaligned", Shape::OverAligned),
     ("ladder", Shape::Ladder),
+    ("round", Shape::Round),
 ];
 pub const ORDERS: [(&str, Order); 3] = [("lifo", Order::Lifo), ("fifo", Order::Fifo), ("random", Order::Random)];
 
@@ -115,6 +119,13 @@ pub fn plan(shape: Shape, seed: u64, share: usize) -> Vec<Item> {
                 v.push(Item { size: 16 + r.below(48) as usize, align: 8 });
             }
         }
+        Shape::Round => {
+            v.push(Item { size: (8 << 20) + r.below(4096) as usize, align: 8 });
+            v.push(Item { size: (3 << 20) + r.below(4096) as usize, align: 8 });
+            if share == 1 {
+                v.push(Item { size: (5 << 20) + r.below(65536) as usize, align: 8 });
+            }
+        }
     }
     v
 }
@@ -149,6 +160,22 @@ unsafe fn touch(p: *mut u8, size: usize, tag: u8) {
 /// Allocation half of a repetition: everything in `plan` is allocated (and, for ladders, grown
 /// and shrunk by realloc). Live blocks are appended to `slots`.
 pub unsafe fn rep_allocate<H: Heap>(h: &mut H, shape: Shape, plan: &[Item], slots: &mut Vec<Slot>, st: &mut RepStats) {
+    if shape == Shape::Round {
+        // one block at a time: allocate, touch, free
+        for it in plan {
+            let p = h.alloc(it.size, it.align);
+            st.calls += 2;
+            if p.is_null() {
+                st.failed += 1;
+                continue;
+            }
+            touch(p, it.size, 0xA5);
+            st.churned += it.size;
+            st.peak_live = st.peak_live.max(it.size);
+            h.free(p, it.size, it.align);
+        }
+        return;
+    }
     let mut live = 0usize;
     for it in plan {
         let p = h.alloc(it.size, it.align);
@@ -224,6 +251,184 @@ pub unsafe fn rep_free<H: Heap>(h: &mut H, order: Order, order_seed: u64, slots:
                 h.free(s.p, s.size, s.align);
                 st.calls += 1;
             }
+        }
+    }
+}
+
+// ---------------------------------------------------------------------------------------------
+// steady state: a BOUNDED live set of fixed-size / few-size objects that is replaced object by object
+// for many steps, after a "primer" that carves a free block so that its remainder (the designated
+// victim `dv`, or a binned chunk) is exactly / one granule below / one granule above the hot chunk size.
+// Live bytes are bounded, so any growth of held memory with the number of steps is the refuting event.
+
+/// chunk size the allocator uses for a request (request padded to 16 with 8 bytes overhead, minimum 32)
+pub const fn chunk_of(req: usize) -> usize {
+    let c = (req + 8 + 15) & !15;
+    if c < 32 {
+        32
+    } else {
+        c
+    }
+}
+/// largest request whose chunk is `chunk`
+pub const fn req_of(chunk: usize) -> usize {
+    chunk - 8
+}
+
+#[derive(Copy, Clone)]
+pub struct Steady {
+    /// hot chunk size (multiple of 16, >= 32)
+    pub chunk: usize,
+    /// 0: every object has the hot size; 1: hot size mostly, plus half and hot+40
+    pub mix: u8,
+    pub policy: Order,
+    /// 0 none, 1 remainder becomes dv (small carve), 2 remainder goes to a bin (large carve)
+    pub primer: u8,
+    /// remainder = chunk + delta
+    pub delta: isize,
+    /// objects in the live set
+    pub live: usize,
+    pub steps: usize,
+}
+
+pub const STEADY_PRIMERS: [&str; 3] = ["none", "dv", "bin"];
+
+pub fn steady_live(chunk: usize) -> usize {
+    let n = 65536 / chunk;
+    if n > 64 {
+        64
+    } else if n < 4 {
+        4
+    } else {
+        n
+    }
+}
+/// enough steps that a chunk lost per step adds up to ~10 MiB
+pub fn steady_steps(chunk: usize) -> usize {
+    let n = (10 << 20) / chunk;
+    if n < 20_000 {
+        20_000
+    } else {
+        n
+    }
+}
+
+fn steady_size(p: &Steady, r: &mut Prng, slack: usize) -> usize {
+    let hot = req_of(p.chunk) - slack;
+    if p.mix == 0 {
+        return hot;
+    }
+    match r.below(8) {
+        0 => (hot / 2).max(1),
+        1 => hot + 40,
+        _ => hot,
+    }
+}
+
+/// One repetition: primer, fill, `steps` replacements, free everything. `sample` is called with the
+/// live set full: at steady steps 0, 64, 128 (warm-up) and then eight times spread over the steps,
+/// and at the end of the steps (the caller samples once more after everything was freed).
+pub unsafe fn steady_rep<H: Heap>(h: &mut H, p: &Steady, seed: u64, slots: &mut Vec<Slot>, st: &mut RepStats, sample: &mut dyn FnMut(&mut H)) {
+    let mut r = Prng::new(seed);
+    let slack = (seed % 9) as usize; // any request in (chunk-24, chunk-8] has the same chunk
+    let mut extra: [Slot; 3] = [Slot { p: core::ptr::null_mut(), size: 0, align: 8 }; 3];
+    // ---- primer ----
+    let rem = p.chunk as isize + p.delta;
+    if p.primer != 0 && rem >= 32 {
+        let carve_chunk = if p.primer == 1 { 32 } else { 272 };
+        let a_size = req_of(rem as usize + carve_chunk);
+        let a = h.alloc(a_size, 8);
+        let g = h.alloc(24, 8); // keeps the freed block away from top
+        st.calls += 2;
+        if !a.is_null() && !g.is_null() {
+            h.free(a, a_size, 8);
+            let k_size = req_of(carve_chunk);
+            let k = h.alloc(k_size, 8); // carved out of the freed block: remainder = chunk + delta
+            st.calls += 2;
+            extra[0] = Slot { p: g, size: 24, align: 8 };
+            if k.is_null() {
+                st.failed += 1;
+            } else {
+                extra[1] = Slot { p: k, size: k_size, align: 8 };
+            }
+        } else {
+            st.failed += 1;
+        }
+    }
+    // ---- fill ----
+    let mut live = 0usize;
+    for _ in 0..p.live {
+        let size = steady_size(p, &mut r, slack);
+        let q = h.alloc(size, 8);
+        st.calls += 1;
+        if q.is_null() {
+            st.failed += 1;
+            continue;
+        }
+        touch(q, size, 0x3C);
+        live += size;
+        slots.push(Slot { p: q, size, align: 8 });
+    }
+    st.peak_live = st.peak_live.max(live + p.chunk + 512);
+    // ---- steady state ----
+    let n = slots.len();
+    let every = (p.steps / 8).max(1);
+    let mut fifo = 0usize;
+    for step in 0..p.steps {
+        if step == 0 || step == 64 || step == 128 || (step > 128 && step % every == 0) {
+            sample(h);
+        }
+        if n == 0 {
+            break;
+        }
+        let burst = if p.policy == Order::Lifo { 1 + r.below(4) as usize } else { 1 };
+        for b in 0..burst.min(n) {
+            let idx = match p.policy {
+                Order::Fifo => {
+                    fifo = (fifo + 1) % n;
+                    fifo
+                }
+                Order::Lifo => n - 1 - b,
+                Order::Random => r.below(n as u64) as usize,
+            };
+            let s = slots[idx];
+            h.free(s.p, s.size, s.align);
+            live -= s.size;
+            slots[idx].p = core::ptr::null_mut();
+        }
+        for s in slots.iter_mut() {
+            if s.p.is_null() {
+                let size = steady_size(p, &mut r, slack);
+                let q = h.alloc(size, 8);
+                st.calls += 2;
+                if q.is_null() {
+                    st.failed += 1;
+                    // keep the slot empty-handed: retry with the minimum so the set stays defined
+                    s.size = 0;
+                    continue;
+                }
+                q.write_volatile(0x3C);
+                q.add(size - 1).write_volatile(0x3C);
+                st.churned += size;
+                live += size;
+                s.p = q;
+                s.size = size;
+            }
+        }
+        st.peak_live = st.peak_live.max(live + p.chunk + 512);
+    }
+    sample(h);
+    // ---- free everything ----
+    while let Some(s) = slots.pop() {
+        if !s.p.is_null() {
+            h.free(s.p, s.size, s.align);
+            st.calls += 1;
+        }
+    }
+    for e in extra.iter() {
+        if !e.p.is_null() {
+            h.free(e.p, e.size, e.align);
+            st.calls += 1;
         }
     }
 }
